@@ -579,7 +579,8 @@ class Gen(object):
             if level > 0 and members and not any(self.nests(m['t']) for m in members):
                 members[rng.randrange(len(members))]['t'] = {'k': 'iface', 'name': rng.choice(self.levels[level - 1])}
             d = {'d': kind, 'name': name, 'members': members}
-            if kind in ('struct', 'object', 'boxed') and members and rng.random() < self.weights.get('flex', 0.02):
+            if (kind in ('struct', 'object', 'boxed') and any(m['t']['k'] != 'method' for m in members)
+                    and rng.random() < self.weights.get('flex', 0.02)):
                 members.append({'name': 'tail', 't': {'k': 'flex', 'of': rng.choice(['gchar', 'gint32', 'guint64', 'gdouble'])}})
                 d['no_nest'] = True
             self.decls.append(d)
